@@ -938,6 +938,56 @@ def run_import_time(ctx, binary, base):
     return n
 
 
+# ---------------------------------------------------------------- the column of a failed assert on lines that are not plain ASCII
+# Round 7 (seed C17-r7-1): every generated program writes `assert` after ASCII indentation only, so a column counted in
+# BYTES and one counted in CHARACTERS (pest's line_col, what the report is held to: the same unit as every other position
+# the compiler prints) agree.  Fixed cases; the oracle is the hand-written (line, column) of the word `assert`, columns
+# counting Unicode scalar values from 1, lines counting "\n" (a "\r" before it belongs to the line it ends).
+ASSERT_COLUMN_CASES = [
+    ("one-line if after a 2-byte string literal", 'ok = false\nlabel = "gr\u00f6\u00dfe"\nprint "before"\nif label == "gr\u00f6\u00dfe" { assert ok }\nprint "never"\n'),
+    ("one-line if after a 3-byte and a 4-byte character", 'ok = false\nprint "before"\nif "\u20ac\U0001F600" == "\u20ac\U0001F600" { assert ok }\nprint "never"\n'),
+    ("non-ASCII text on the lines before, ASCII on the assert's line", 'ok = false\nname = "\u00e9\u00e8\u00ea \u4e2d\u6587"\nprint "before"\n  assert ok\nprint "never"\n'),
+    ("non-ASCII text after the assert on its line", 'ok = false\nprint "before"\nassert ok == ("\u00fc" == "\u00fc")\nprint "never"\n'),
+    ("tab indentation inside a function, 2-byte characters before", 'check = fn(label: str, ok: bool) {\n\tif label == "\u00e5\u00e4\u00f6" { assert ok }\n}\nprint "before"\ncheck("x", false)\ncheck("\u00e5\u00e4\u00f6", false)\nprint "never"\n'),
+    ("CRLF line ends and a non-ASCII line before", 'ok = false\r\nname = "\u00f1and\u00fa"\r\nprint "before"\r\nif name == "\u00f1and\u00fa" { assert ok }\r\nprint "never"\r\n'),
+    ("second statement of a one-line block after a non-ASCII print", 'ok = false\nprint "before"\nif true { w = "\u00df\u00df\u00df" assert ok }\nprint "never"\n'),
+]
+
+
+def run_assert_columns(ctx, binary, base):
+    def one(c):
+        d = programs.materialize({"files": {"main.ms": c[1]}}, base)
+        r = programs.run_bin(binary, ["run", "main.ms", "-q"], d, timeout=30)
+        import shutil
+        shutil.rmtree(d, ignore_errors=True)
+        return r
+    n = 0
+    for (name, src), (rc, out, err) in zip(ASSERT_COLUMN_CASES, programs.pmap(one, ASSERT_COLUMN_CASES)):
+        if "Did not compile successfully" in err:
+            ctx.report("generator:rejected", "assert-column case %s is rejected by the compiler: %s" % (name, (out + err)[-300:]), {"program": src}, found_input=False)
+            continue
+        n += 1
+        pos = None
+        for ln, line in enumerate(src.split("\n"), 1):
+            m = re.search(r"\bassert\b", line)
+            if m:
+                pos = "main.ms:%d:%d" % (ln, m.start() + 1)          # str offsets count characters
+        rk, detail, stack = vmtie.parse_real_error(err)
+        bad = None
+        if rc != 1 or rk != "assert":
+            bad = "exit %d, failure reported as %s %s (expected the assertion failure, exit 1)" % (rc, rk, str(detail)[:160])
+        elif lines_of(out) != ["before"]:
+            bad = "printed %r, expected ['before']" % (lines_of(out),)
+        elif detail != pos:
+            bad = "the report names position %r, the assert stands at %s (line:column, columns in characters)" % (detail, pos)
+        if bad:
+            ctx.report("assert-column", "position of a failed assert on a line with non-ASCII text / tabs / CRLF (%s): %s" % (name, bad),
+                       {"files": {"main.ms": src}, "entry": "main.ms", "expected_stdout": ["before"], "expected_kind": "assert", "expected_position": pos,
+                        "observed_exit": rc, "observed_stdout": out[-400:], "observed_stderr": re.sub(r"\(\d+\) panicked", "panicked", err[-1400:]), "how": "mscript run main.ms -q"})
+    ctx.cov["assert_column_cases"] = n
+    return n
+
+
 def run_completed_blocks(ctx, binary, base):
     cases = completed_block_cases()
 
@@ -1085,6 +1135,7 @@ def run(ctx):
 
     n_cb = run_completed_blocks(ctx, binary, base)
     n_cb += run_import_time(ctx, binary, base)
+    n_cb += run_assert_columns(ctx, binary, base)
 
     # ---------------- native stack exhaustion (outside every model): observed
     def deep(n):
